@@ -433,7 +433,9 @@ open Qryn Qryn.Sql Qryn.Prof Qryn.Prom
 
 /-- every select of a union statement — each operand of the union and the main select — is confined on its own -/
 def unionConfined (cfg : Cfg) (w : Window) (u : UnionStmt) : Bool :=
-  u.ops.all (fun s => bodyConfined cfg w [] s && isIndexSelection cfg s) && bodyConfined cfg w [] u.main
+  u.pre.all (fun e => bodyConfined cfg w [] e.2) &&
+  u.ops.all (fun s => bodyConfined cfg w [] s && isIndexSelection cfg s) &&
+  u.post.all (fun e => bodyConfined cfg w [] e.2) && bodyConfined cfg w [] u.main
 
 theorem labelsSel_body (cfg : Cfg) (c : PCtx) (h : ProfCfg cfg c) (col : String) (label : Option Bytes) (withFp : Bool) (ok : List Alias) :
     bodyConfined cfg (winProf c) ok (labelsSel c col label withFp) = true := by
@@ -459,8 +461,39 @@ theorem labelsUnion_confined (cfg : Cfg) (c : PCtx) (h : ProfCfg cfg c) (col : S
     (scripts : List (List PCond × List PCond)) (hg : ∀ p ∈ scripts, ∀ g ∈ p.1, g.noDate = true) :
     unionConfined cfg (winProf c) (labelsUnion c col label scripts) = true := by
   unfold unionConfined labelsUnion
-  simp only [Bool.and_eq_true, List.all_map, List.all_eq_true, Function.comp]
+  simp only [Bool.and_eq_true, List.all_map, List.all_eq_true, Function.comp, List.all_nil, Bool.true_and, Bool.and_true]
   refine ⟨fun p hp => ⟨selectorSel_body cfg c h p.1 p.2 (hg p hp) [], ?_⟩, labelsSel_body cfg c h col label true []⟩
   simp [selectorSel, isIndexSelection, fromTable, h.gin]
+
+/-- `ProfileSizePlanner` / AnalyzeQuery -/
+theorem analyzeQuery_good (cfg : Cfg) (c : PCtx) (h : ProfCfg cfg c) (globals kvs : List PCond) (hg : ∀ g ∈ globals, g.noDate = true) :
+    GoodM cfg (winProf c) (analyzeQuery c globals kvs) := by
+  unfold analyzeQuery profileSize
+  exact noTable_with_good _ rfl "pre_profile_size" (mergeProfiles_good cfg c h globals kvs globals hg)
+
+theorem timeSeriesSelect_index (cfg : Cfg) (c : PCtx) (h : ProfCfg cfg c) (g k m : List PCond) :
+    isIndexSelection cfg (timeSeriesSelect c g k m) = true := by
+  simp [timeSeriesSelect, Sel.with_, Sel.setWiths, isIndexSelection, fromTable, seriesFrom, h.seriesDist]
+
+theorem seriesUnion_confined (cfg : Cfg) (c : PCtx) (h : ProfCfg cfg c) (labels : List Bytes)
+    (scripts : List (List PCond × List PCond)) (hg : ∀ p ∈ scripts, ∀ g ∈ p.1, g.noDate = true) :
+    unionConfined cfg (winProf c) (seriesUnion c labels scripts) = true := by
+  have hops : ∀ p ∈ scripts, bodyConfined cfg (winProf c) [] (timeSeriesSelect c p.1 p.2 p.1) = true ∧
+      isIndexSelection cfg (timeSeriesSelect c p.1 p.2 p.1) = true := by
+    intro p hp
+    exact ⟨(timeSeriesSelect_good cfg c h p.1 p.2 p.1 (hg p hp) (hg p hp)).body [], timeSeriesSelect_index cfg c h _ _ _⟩
+  have hpre : (match scripts with | [] => ([] : List (Alias × Sel)) | p :: _ => [(.named "fp", selectorSel c p.1 p.2)]).all
+      (fun e => bodyConfined cfg (winProf c) [] e.2) = true := by
+    cases scripts with
+    | nil => rfl
+    | cons p rest => simp [selectorSel_body cfg c h p.1 p.2 (hg p (by simp)) []]
+  have hpd : bodyConfined cfg (winProf c) [] preDistinctSel = true := bodyConfined_noTable _ _ _ _ rfl
+  unfold unionConfined seriesUnion
+  simp only
+  split
+  · simp only [Bool.and_eq_true, List.all_map, List.all_eq_true, Function.comp, List.all_nil, Bool.and_true]
+    exact ⟨⟨List.all_eq_true.mp hpre, hops⟩, hpd⟩
+  · simp only [Bool.and_eq_true, List.all_map, List.all_eq_true, Function.comp, List.all_cons, List.all_nil, Bool.and_true]
+    exact ⟨⟨⟨List.all_eq_true.mp hpre, hops⟩, hpd⟩, bodyConfined_noTable _ _ _ _ rfl⟩
 
 end Qryn.Confine
